@@ -431,6 +431,14 @@ func c11Run(t *testing.T, p c11Plan) (res vfResult) {
 		}
 		synctest.Wait() // the held requests are parked at the pause gate before the continuation starts
 		snapshots := []*vfModel{m.clone()} // the configurations in force while the held requests wait
+		// the restored proxy built its rollout targets with the service options of the restart; until the next rollout
+		// deploy they keep those, whatever redeploys follow (the listed finding, in its restored form)
+		restoredRolloutOpt := map[string]vfOpts{}
+		for name, s := range m.Svcs {
+			if s.Rollout != nil {
+				restoredRolloutOpt[name] = s.Opt
+			}
+		}
 		for i, c := range p.H2 {
 			ctx := fmt.Sprintf("H2 step %d %s", i, c)
 			want := m.apply(c)
@@ -455,6 +463,9 @@ func c11Run(t *testing.T, p c11Plan) (res vfResult) {
 			if ra.End-ra.Start != rb.End-rb.Start {
 				res.failf("duration-diff", "%s: original took %v, restored took %v", ctx, ra.End-ra.Start, rb.End-rb.Start)
 				return
+			}
+			if (c.Op == "rollout-deploy" || c.Op == "remove") && ra.Err == nil {
+				delete(restoredRolloutOpt, c.Svc)
 			}
 			synctest.Wait()
 			snapshots = append(snapshots, m.clone())
@@ -509,6 +520,14 @@ func c11Run(t *testing.T, p c11Plan) (res vfResult) {
 			for _, tn := range m.Svcs[n].Rollout {
 				ambiguous[tn] = true
 				res.label("probe-cadence-skipped-for-stale-rollout-target")
+			}
+		}
+		for n, ro := range restoredRolloutOpt {
+			if s := m.Svcs[n]; s != nil && s.Rollout != nil && !reflect.DeepEqual(ro.targetLevel(), s.Opt.targetLevel()) {
+				for _, tn := range s.Rollout {
+					ambiguous[tn] = true
+					res.label("probe-cadence-skipped-for-stale-rollout-target")
+				}
 			}
 		}
 		for _, name := range vfSortedKeys(m.Svcs) {
